@@ -7,6 +7,38 @@ props = [json.loads(l) for l in open(os.path.join(V, 'properties.jsonl'))]
 PROV_NOTE = ('Trusts: the transcription of PS3.8 Table 9-10 in specs/ULFsm.tla; the simulated socket / select / clock of '
              'harness/simnet.py standing for TCP and time; the projection of provider state in harness/ulrun.py; TLC.')
 claimed = {
+ 'C01': dict(level='model_checking', ref='4 (C01)',
+   technique='TLA+ Wire.tla (PS3.8 layouts as data, length-driven Dec) checked by TLC over an enumerated structure universe; library round trips judged by TLC (Trace_Wire)',
+   text='TLC enumerates structures (all ordered pairs - triples in thorough - of 40 user-information sub-item variants, presentation-context lists, item orders, header boundary values, all small PDUs), checks RoundTrip/TotalLength/LengthsExact of the reference on each; every structure plus thousands of seeded random ones is built with the public classes, encoded, decoded and re-encoded; TLC judges round-trip identity clause by clause; payloads beyond 64 KiB are judged with the certified reference.',
+   note='Trusts the transcription of PS3.8 9.3 / PS3.7 Annex D in specs/Wire.tla (self-checked by RoundTrip, LengthsExact) and the projection harness/wirelib.py; AE-title padding is not significant.'),
+ 'C02': dict(level='model_checking', ref='4 (C02)',
+   technique='TLA+ Wire.tla as independent length-driven reference; TLC judges library bytes against Enc(s) and library decode of reference encodings against s (Trace_Wire)',
+   text='Same universe as C01. Library -> standard: the bytes of encode() must equal TLC\'s Enc of the structure (up to AE-title padding) and total_length must equal the byte count. Standard -> library: reference encodings, including item orders, unknown sub-item types, several transfer syntaxes and PDVs the library never emits, are decoded by the library and compared field by field by TLC. harness/wire_ref.py is certified against TLC\'s Enc on every case.',
+   note='Trusts the transcription in specs/Wire.tla; symmetric mistakes invisible to C01 are visible here because the reference is independent of pdu.py.'),
+ 'C06': dict(level='model_checking', ref='4 (C06)',
+   technique='TLA+ Dimse.tla sender explored by TLC; fragment sequences produced by the real Association.send validated as traces by TLC (code->spec)',
+   text='MC_Dimse explores every fragmentation within bounds (SizeBound with 32-bit limbs, NonEmpty, CommandBeforeData, one last fragment per stream and final, SenderNeverStuck). Real sends of all 23 classes x data absent/bytes/file x lengths around multiples of the fragment size x maxima 7..100 (300 thorough) and 2^k, 2^k+-1 to 2^32-1 x context ids are parsed by the reference parser into traces TLC validates; concatenation equality is evaluated on the designated slices.',
+   note='One PDV per P-DATA-TF required (what the library does). Byte equality evaluated by the harness, sizes/flags/order/tiling by TLC.'),
+ 'C07': dict(level='model_checking', ref='4 (C07)',
+   technique='TLA+ Dimse.tla grouper+reassembler explored exhaustively by TLC; every TLC behaviour replayed into the real DIMSEDecoder (spec->code); decoder traces on regrouped library fragments validated by TLC (code->spec)',
+   text='Every fragmentation x every grouping within bounds is printed by TLC with the reassembler\'s verdict after each PDU; each is concretised with real command sets of all 23 command fields and real data sets and replayed into fsm.DIMSEDecoder (in memory and file backed): receiving must match after every PDU; class, context, command set, data bytes, Part-10 readability and transfer syntax at completion.',
+   note='Abstract fragment sizes are concretised as proportional cuts. File-backed reception uses C-STORE-RQ (what it is configured for).'),
+ 'C08': dict(level='model_checking', ref='4 (C08)',
+   technique='TLA+ MsgObject.tla; all operation sequences enumerated by TLC and replayed on real message objects (spec->code); measurements of the independent reader validated by TLC (code->spec)',
+   text='MC_MsgObject enumerates set-field / set-data-set / send sequences of bounded depth for all 23 classes; each Send goes through Association.send, the command fragments are read by an independent implicit-VR-LE reader; TLC validates group length = bytes following, ascending tags, PS3.7 command field, flag 0101H iff no data fragments, data iff attached, current field lengths. Seeded sequences with UID lengths 1..64 added.',
+   note='Two variable fields per class are exercised; independent reader harness/cmdset.py.'),
+ 'C09': dict(level='model_checking', ref='4 (C09)',
+   technique='TLA+ Negotiation.tla acceptor relation (MC: never empty, rejects wrong answers); real AssociationAcceptor constructor+handler run per case, membership decided by TLC',
+   text='All 64 configurations x all requests with 0..1 contexts (every ordered list of 1..3 of 4 transfer syntaxes, served/unserved abstract syntaxes), pairs of contexts (all 14400 in thorough), seeded requests up to 60 contexts: the real handler (constructor, _establish, accept, _loop) runs on a scripted provider; answer, routing tables and dispatch are judged by TLC clause by clause.',
+   note='Transfer-syntax choice and rejection reason are free (membership).'),
+ 'C10': dict(level='model_checking', ref='4 (C10)',
+   technique='TLA+ Negotiation.tla MaxLenClauses with 32-bit limbs + Dimse progress; real negotiation and sends on the boundary grid judged by TLC',
+   text='Every pair of the grid {0,7,8,127,128,1024,16384,65536,2^31,2^32-1} x acceptor / requester / acceptor with the sub-item not first: announced value <= configured unless unlimited, every P-DATA-TF <= peer announcement (0 restricts nothing), all bytes of messages smaller/equal/several times the fragment size delivered.',
+   note='Send limit may be anything <= the peer announcement.'),
+ 'C11': dict(level='model_checking', ref='4 (C11)',
+   technique='TLA+ Negotiation.tla requester clauses; real ClientAE/AE configuration histories and AssociationRequester._request on scripted replies judged by TLC',
+   text='Configuration histories with class totals 1..130 (and 140), every accept/reject/transfer-syntax pattern for proposals <= 3 contexts, seeded patterns beyond, RJ replies: request well-formedness, usable table and get_scu lookups judged by TLC. Totals beyond 128 classes are a recorded known finding (F11).',
+   note='Disjoint class lists; lookup iff only for add_scu classes.'),
  'C03': dict(level='model_checking', ref='4 (C03)',
    technique='TLA+ Framing/ULProvider specs checked by TLC; TLC trace validation of real provider runs under every cut schedule (code->spec) + baseline comparison',
    text='Framing.tla is explored exhaustively (every delivery schedule: Conservation, PrefixOfSent, Aligned, AllRecognised). The real run() loop is replayed on a deterministic transport for every conversation of a 19-conversation corpus under every single cut offset, dribble, all-at-once, pairs of cuts (all pairs in thorough) and k-cuts, with/without the first segment waiting; each execution is validated step by step by TLC against Trace_ULProvider (frames cut exactly when complete, FIFO events, PairedSlot) and compared with the one-PDU-per-segment run.',
